@@ -39,9 +39,11 @@ LEVEL_TEXT = (
     "register save area - under the assumptions stated in the theorem (the body keeps rsp, writes a callee-saved register only if an alias is in "
     "used_regs, writes no save slot); (3) for every signature for which gen_call produces code (iff all stack arguments are 32/64-bit integers or "
     "pointers) the argument area is a multiple of 16, every argument - register and stack - is at its psABI location at the call instruction, rsp is "
-    "restored and the result is read from rax/xmm0; (4) for every signature for which gen_function_enter produces code every parameter is read from "
+    "restored, the result is read from rax/xmm0, and the clobber list carried by the emitted call instruction - direct AND indirect (call through a "
+    "register) form - contains every register a psABI callee may destroy, so any value kept in a non-clobbered hardware register survives every "
+    "conforming callee; (4) for every signature for which gen_function_enter produces code every parameter is read from "
     "its psABI location. The register tables of the live arch (argument/return registers, _callee_save, _caller_save, register classes, alias map) "
-    "are dumped on every run and re-checked by decide. The model is tied to arch.py by a differential run, and the REAL prologue/epilogue/call/enter "
+    "and the .clobbers of the real Call and CallReg instructions are dumped on every run and re-checked by decide. The model is tied to arch.py by a differential run, and the REAL prologue/epilogue/call/enter "
     "instruction lists are executed on the Lean stack machine against the Spec. The thorough tier searches for failing inputs with real gcc<->ppci "
     "calls through linked ELF objects. The unguarded statement is proved false (stack-passed float/double and 8/16-bit arguments raise "
     "NotImplementedError: open findings). Not proved: machine semantics of the instructions, register allocation, ELF/relocations, struct/blob "
@@ -59,7 +61,8 @@ TECHNIQUE = ("Lean 4 proof (induction over the signature with the loop invariant
              "differential correspondence and Lean execution of the real instruction lists + gcc interop as failing-input search (thorough)")
 RULE = ("signatures: all words of length <= 4 (quick 3) over 11 scalar IR types exhaustive, random length 5..12, fixed long ones (to 40 args); "
         "frames: every alias variant of every subset of the callee-save list (45 used-sets) x extra caller-saved/xmm registers x stack sizes 0..40 "
-        "(thorough 0..300 + random to 2^20) + frames captured from compiling generated C functions; distinct = distinct request line; non-trivial = "
+        "(thorough 0..300 + random to 2^20) + frames and call instructions (direct and through function pointers) captured from compiling generated "
+        "C functions; gen_call with label and register callees; native ppci callers through function pointers with 1..5 live temporaries; distinct = distinct request line; non-trivial = "
         "signature with at least one stack argument, or frame that saves at least one register or has a non-zero stack size, or an error outcome")
 TRUSTED = [
     "hand model Model.X64CC of ppci/arch/x86_64/arch.py (determine_arg_locations, determine_rv_location, gen_prologue, gen_epilogue, get_callee_saved, round_up16, gen_call, gen_function_enter), tied by differential run on every check",
@@ -182,7 +185,11 @@ def make_renderer():
                 raise Unrecognised(f"{ins}: negative immediate")
             return ("sub:" if type(ins) is I.SubImm else "add:") + str(ins.imm)
         if type(ins) in (I.Call, I.CallReg):
-            return "call"
+            ids = sorted({parent_id(r) for r in ins.clobbers})
+            cl = ".".join(str(i) for i in ids) if ids else "none"
+            if type(ins) is I.CallReg:
+                return f"callr:{rid(ins.reg, vmap)}:{cl}"
+            return f"call:{cl}"
         if type(ins) is I.Ret:
             return "ret"
         if type(ins) in movlike:
@@ -243,6 +250,18 @@ def regen(ctx):
     f32 = locs(ir.f32, 20)
     rvs = [(LETTER[t.name], arch.determine_rv_location(t)) for t in
            (ir.i8, ir.u8, ir.i16, ir.u16, ir.i32, ir.u32, ir.i64, ir.u64, ir.ptr, ir.f32, ir.f64)]
+    from ppci.arch.stack import Frame
+
+    def call_clobbers(label):
+        calls = [i for i in arch.gen_call(Frame("regen"), label, [], None) if type(i) in (I.Call, I.CallReg)]
+        if len(calls) != 1:
+            raise ValueError(f"gen_call emitted {len(calls)} call instructions for callee {label!r}")
+        want = I.CallReg if isinstance(label, Register) else I.Call
+        if type(calls[0]) is not want:
+            raise ValueError(f"gen_call emitted {type(calls[0]).__name__} for callee {label!r}")
+        return list(calls[0].clobbers)
+    clob_direct = call_clobbers("callee")
+    clob_indirect = call_clobbers(R.Register64("fp"))
     classes = [(rc.name, list(rc.registers)) for rc in arch.info.register_classes]
     alias = arch.info.alias
     universe = sorted(alias.keys(), key=lambda r: (_rrow(r)))
@@ -266,6 +285,10 @@ def regen(ctx):
         f"def calleeSave : List (Nat × Nat × Nat) := {lst(arch._callee_save)}\n"
         "/-- `arch._caller_save` (clobber list of every call instruction) -/\n"
         f"def callerSave : List (Nat × Nat × Nat) := {lst(arch._caller_save)}\n\n"
+        "/-- `.clobbers` of the call instruction `gen_call` emits for a label callee (`Call`) -/\n"
+        f"def callClobbersDirect : List (Nat × Nat × Nat) := {lst(clob_direct)}\n"
+        "/-- `.clobbers` of the call instruction `gen_call` emits for a register callee (`CallReg`, call through a pointer) -/\n"
+        f"def callClobbersIndirect : List (Nat × Nat × Nat) := {lst(clob_indirect)}\n\n"
         "/-- registers the allocator may hand out: all members of `arch.info.register_classes` -/\n"
         "def allocatable : List (Nat × Nat × Nat) := "
         + lst([r for _, rs in classes for r in rs]) + "\n\n"
@@ -358,6 +381,10 @@ def gen_c_function(rng, k):
     arr = rng.choice([0, 0, 1, 2, 3, 5, 8, 13, 40])
     nargs = rng.randint(0, 8)
     args = ", ".join(f"long a{i}" for i in range(nargs)) or "void"
+    indirect = rng.random() < 0.5 or k < 2
+    fp = f"long (*fp{k})(long)"
+    if indirect:
+        args = fp if args == "void" else fp + ", " + args
     lines = [f"long ext{k}(long x);", f"long fun{k}({args}) {{"]
     if arr:
         lines.append(f"  {rng.choice(['char', 'int', 'long'])} buf[{arr}];")
@@ -365,9 +392,10 @@ def gen_c_function(rng, k):
     for j in range(nlive):
         src = f"a{rng.randrange(nargs)}" if nargs else str(j + 1)
         lines.append(f"  long v{j} = {src} * {j + 3} + {j};")
-    ncalls = rng.randint(0, 2)
+    ncalls = rng.randint(1 if k < 4 else 0, 2)
     for j in range(ncalls):
-        lines.append(f"  long c{j} = ext{k}({('v%d' % rng.randrange(nlive))});")
+        callee = f"fp{k}" if indirect and (j == 0 or rng.random() < 0.5) else f"ext{k}"
+        lines.append(f"  long c{j} = {callee}({('v%d' % rng.randrange(nlive))});")
     terms = [f"v{j}" for j in range(nlive)] + [f"c{j}" for j in range(ncalls)] + (["buf[0]"] if arr else [])
     lines.append("  return " + " + ".join(terms) + ";")
     lines.append("}")
@@ -420,6 +448,24 @@ def check_tables(ctx, arch):
         if p not in abi_callee and p not in clob:
             ctx.fail("caller_save:abi-caller-saved-register-assumed-preserved",
                      f"{r} (hardware register {p}) may hold a value across a call but the psABI lets the callee destroy it", reg_str(r))
+
+
+def check_call_clobbers(ctx, arch, ins, origin):
+    """the property at one real call instruction, evaluated on the live objects (independent of Lean): every allocatable
+    register that is not psABI callee-saved must be in the instruction's clobber list.  -> 'direct' | 'indirect'"""
+    _, _, I, _ = _imports()
+    form = "indirect" if type(ins) is I.CallReg else "direct"
+    ctx.count("eval_call_clobbers_" + form)
+    clob = {parent_id(r) for r in ins.clobbers}
+    abi_callee = {3, 5, 12, 13, 14, 15}
+    alloc = {parent_id(r) for rc in arch.info.register_classes for r in rc.registers}
+    missing = sorted(p for p in alloc if p not in abi_callee and p not in clob)
+    if missing:
+        ctx.fail(f"gen_call:{form}-call-missing-clobbers",
+                 f"{origin}: the {form} call instruction '{ins}' does not list hardware registers {missing} as clobbered "
+                 "(allocatable, not psABI callee-saved): values kept there are lost when the callee uses them", origin,
+                 clobbers=sorted(clob), missing=missing)
+    return form
 
 
 def check(ctx):
@@ -517,7 +563,14 @@ def check(ctx):
         lst = list(orig_epi(frame))
         captured.append(("compiled:" + frame.name, sorted(frame.used_regs, key=str), frame.stacksize, pend.pop(id(frame), None), lst))
         return iter(lst)
-    cg_arch.gen_prologue, cg_arch.gen_epilogue = cap_pro, cap_epi
+    orig_call = cg_arch.gen_call
+    captured_calls = []
+
+    def cap_call(frame, label, args, rv):
+        lst = list(orig_call(frame, label, args, rv))
+        captured_calls.append((frame.name, label, lst))
+        return iter(lst)
+    cg_arch.gen_prologue, cg_arch.gen_epilogue, cg_arch.gen_call = cap_pro, cap_epi, cap_call
     from ppci.api import cc
     nfun = 60 if ctx.thorough else 8
     src = "\n".join(gen_c_function(ctx.rng, k) for k in range(nfun))
@@ -526,12 +579,23 @@ def check(ctx):
     except Exception as e:  # noqa
         raise common.BrokenCheck(f"ppci.api.cc failed on the generated frame functions: {type(e).__name__}: {e}")
     finally:
-        del cg_arch.gen_prologue, cg_arch.gen_epilogue
+        del cg_arch.gen_prologue, cg_arch.gen_epilogue, cg_arch.gen_call
     for c in captured:
         if c[3] is None:
             raise common.BrokenCheck("gen_epilogue called for a frame whose prologue was not seen")
         ctx.count("programs_compiled_frames")
     frames += captured
+    # every call instruction the real code generator emitted: its clobber list must cover the psABI caller-saved set
+    ncalls = {"direct": 0, "indirect": 0}
+    for fname, label, lst in captured_calls:
+        calls = [i for i in lst if type(i) in (I.Call, I.CallReg)]
+        if len(calls) != 1:
+            ctx.disagree("captured gen_call", fname, f"{len(calls)} call instructions", "exactly one")
+        for ins in calls:
+            ncalls[check_call_clobbers(ctx, arch, ins, f"compiled:{fname} callee={label}")] += 1
+    if not ncalls["direct"] or not ncalls["indirect"]:
+        raise common.BrokenCheck(f"generated C functions did not produce both call forms: {ncalls}")
+    ctx.extra_cov["call_instructions_from_codegen"] = ncalls
     ctx.extra_cov["frames"] = len(frames)
     ctx.extra_cov["frames_from_codegen"] = len(captured)
 
@@ -563,7 +627,7 @@ def check(ctx):
             ctx.disagree("render prologue/epilogue", f"{origin} used={used} stacksize={n}", "unrecognised: " + str(e), "(not executed)")
             continue
         # epilogue must end in ret (+ literal pool data)
-        if "ret" not in epi or any(x != "data" for x in epi[epi.index("ret") + 1:]) or "ret" in pro or "call" in pro + epi:
+        if "ret" not in epi or any(x != "data" for x in epi[epi.index("ret") + 1:]) or "ret" in pro or any(x.startswith("call") for x in pro + epi):
             ctx.disagree("render prologue/epilogue", f"{origin} used={used_s} stacksize={n}", joined(pro) + " / " + joined(epi), "ret missing or misplaced")
             continue
         epi = epi[: epi.index("ret")]
@@ -591,38 +655,67 @@ def check(ctx):
         if rvt != "-":
             rv = (ir_of(rvt), VCLS[rvt]("rv"))
             vmap[id(rv[1])] = 99
-        # gen_call
-        try:
-            lst = render_list(render, list(arch.gen_call(fr, "callee", args, rv)), vmap)
-            if lst.count("call") != 1:
-                raise Unrecognised("not exactly one call instruction")
-            k = lst.index("call")
-            pre, post = lst[:k], lst[k + 1:]
-            total = sum(int(x[4:]) for x in post if x.startswith("add:"))
-            impl = f"ok {joined(pre)} {joined(post)} {total}"
-        except Unrecognised as e:
-            impl = "unrecognised: " + str(e)
-        except Exception as e:  # noqa
-            impl = "err " + type(e).__name__
+        # gen_call: direct (label callee) and indirect (callee address in a register)
+        for kind in ("d", "i"):
+            if kind == "i" and sig not in CORPUS_SIGS and len(s) > 2 and ctx.rng.random() < 0.5:
+                continue
+            vm = dict(vmap)
+            if kind == "d":
+                label = "callee"
+            else:
+                label = R.Register64("fp")
+                vm[id(label)] = 98
+            pre = post = clob = None
+            try:
+                lst = render_list(render, list(arch.gen_call(fr, label, args, rv)), vm)
+                calls = [x for x in lst if x.startswith("call")]
+                if len(calls) != 1:
+                    raise Unrecognised("not exactly one call instruction")
+                k = lst.index(calls[0])
+                pre, post = lst[:k], lst[k + 1:]
+                clob = calls[0].split(":")[-1]
+                if (kind == "i") != calls[0].startswith("callr:"):
+                    raise Unrecognised(f"call form {calls[0]} for a {'register' if kind == 'i' else 'label'} callee")
+                total = sum(int(x[4:]) for x in post if x.startswith("add:"))
+                impl = f"ok {joined(pre)} {calls[0]} {joined(post)} {total}"
+            except Unrecognised as e:
+                impl = "unrecognised: " + str(e)
+            except Exception as e:  # noqa
+                impl = "err " + type(e).__name__
 
-        def h_call(reply, sig=sig, rvt=rvt, impl=impl):
-            ctx.count("eval_call_model")
-            if impl.startswith("err") or sum(c in INTS for c in sig) > 6 or sum(c in FLOATS for c in sig) > 8:
-                ctx.nontrivial(f"call {sig} {rvt}")
-            if reply != impl:
-                ctx.disagree("gen_call", f"{sig} rv={rvt}", impl, reply)
-            if impl.startswith("err"):
-                if impl == "err NotImplementedError" and has_stack_float(sig):
-                    ctx.fail("gen_call:stack-arg-float:NotImplementedError", f"gen_call for ({sig}) raises NotImplementedError: a float/double argument passed on the stack", sig)
-                elif impl == "err NotImplementedError" and stack_small_ints(sig):
-                    ctx.fail("gen_call:stack-arg-i8-i16:NotImplementedError", f"gen_call for ({sig}) raises NotImplementedError: an 8/16-bit integer argument passed on the stack", sig)
-                else:
-                    ctx.fail("gen_call:raises:" + impl[4:], f"gen_call for ({sig}) raises {impl[4:]}", sig)
-        ask(f"call {sig} {rvt}", h_call)
-        if impl.startswith("ok"):
-            ask(f"execcall {sig} {rvt} {joined(pre)} {joined(post)}", h_exec("gen_call", f"({sig}) rv={rvt}", "gen_call"))
-        elif impl.startswith("unrecognised"):
-            ctx.disagree("render gen_call", sig, impl, "(not executed)")
+            def h_call(reply, sig=sig, rvt=rvt, impl=impl, kind=kind):
+                ctx.count("eval_call_model")
+                if impl.startswith("err") or sum(c in INTS for c in sig) > 6 or sum(c in FLOATS for c in sig) > 8:
+                    ctx.nontrivial(f"call {sig} {rvt} {kind}")
+                if reply != impl:
+                    ctx.disagree("gen_call", f"{sig} rv={rvt} {'indirect' if kind == 'i' else 'direct'}", impl, reply)
+                if impl.startswith("err"):
+                    if impl == "err NotImplementedError" and has_stack_float(sig):
+                        ctx.fail("gen_call:stack-arg-float:NotImplementedError", f"gen_call for ({sig}) raises NotImplementedError: a float/double argument passed on the stack", sig)
+                    elif impl == "err NotImplementedError" and stack_small_ints(sig):
+                        ctx.fail("gen_call:stack-arg-i8-i16:NotImplementedError", f"gen_call for ({sig}) raises NotImplementedError: an 8/16-bit integer argument passed on the stack", sig)
+                    else:
+                        ctx.fail("gen_call:raises:" + impl[4:], f"gen_call for ({sig}) raises {impl[4:]}", sig)
+            ask(f"call {sig} {rvt} {kind}", h_call)
+            if impl.startswith("ok"):
+                def h_execcall(reply, sig=sig, rvt=rvt, kind=kind, clob=clob):
+                    ctx.count("eval_exec_gen_call")
+                    form = "indirect" if kind == "i" else "direct"
+                    case = f"({sig}) rv={rvt} {form} call, clobbers={clob}"
+                    if reply == "ok held":
+                        return
+                    if reply.startswith("ok viol:call-missing-clobbers:"):
+                        ctx.fail(f"gen_call:{form}-call-missing-clobbers",
+                                 f"gen_call {case}: the {form} call instruction does not list hardware registers {reply.split(':')[-1]} as clobbered, "
+                                 "so the register allocator keeps values in them across a call whose psABI callee may destroy them", case, detail=reply)
+                    elif reply.startswith("ok viol:"):
+                        kindv = reply[len("ok viol:"):]
+                        ctx.fail(f"gen_call:{kindv.split(':')[0]}", f"gen_call {case}: {kindv}", case, detail=kindv)
+                    else:
+                        ctx.disagree("exec gen_call", case, "ok held|viol", reply)
+                ask(f"execcall {sig} {rvt} {joined(pre)} {clob} {joined(post)}", h_execcall)
+            elif impl.startswith("unrecognised"):
+                ctx.disagree("render gen_call", sig, impl, "(not executed)")
         # gen_function_enter
         try:
             lst = render_list(render, list(arch.gen_function_enter(args)), vmap)
@@ -661,7 +754,18 @@ def check(ctx):
     ctx.extra_cov["exhaustive"] = True
     ctx.extra_cov["exhaustive_what"] = ctx.extra_cov["exhaustive_signatures"] + "; 45 alias variants of callee-saved use x listed stack sizes"
 
-    # ---- (4) real interop (thorough) ---------------------------------------------------------------
+    # ---- (4a) native calls through function pointers with live temporaries (both tiers) ---------------
+    if not os.environ.get("VERIF_C40_NO_INTEROP"):
+        nf = 60 if ctx.thorough else 12
+        if native_indirect(ctx, nf):
+            ctx.extra_cov["native_indirect_calls"] = (f"{2 * nf} ppci callers (indirect + direct control) with 1..5 int / float temporaries live across a "
+                                                      "call into gcc-compiled callees that overwrite every caller-saved register; linked by gcc, run natively")
+        elif ctx.thorough:
+            raise common.BrokenCheck("gcc not found (needed for the native interop search)")
+        else:
+            ctx.extra_cov["native_indirect_calls"] = "skipped: gcc not found"
+            ctx.note("gcc not found: native indirect-call run skipped in the quick tier (the clobber-list checks do not need it)")
+    # ---- (4b) real interop (thorough) --------------------------------------------------------------
     if ctx.thorough and not os.environ.get("VERIF_C40_NO_INTEROP"):
         interop(ctx)
     else:
@@ -755,6 +859,122 @@ shim_saved_rsp:
     .quad 0
     .section .note.GNU-stack,"",@progbits
 """
+
+
+# really overwrite every register a psABI callee is free to overwrite (declaring them clobbered is not enough: gcc then
+# merely avoids them)
+_GPRS = ["rcx", "rdx", "rsi", "rdi", "r8", "r9", "r10", "r11"]
+
+
+def _scribble(name, gprs, xmms):
+    body = ["movabsq $0x5a5a5a5a5a5a5a5a, %%" + gprs[0]]
+    body += [f"movq %%{gprs[0]}, %%{g}" for g in gprs[1:]]
+    body += [f"movq %%{gprs[0]}, %%xmm{i}" for i in xmms]
+    clob = ", ".join(f'"{g}"' for g in gprs) + ", " + ", ".join(f'"xmm{i}"' for i in xmms)
+    return (f"#define {name}() __asm__ volatile (" + " ".join(f'"{b}\\n\\t"' for b in body) + f" ::: {clob}, \"memory\")")
+
+
+SCRIBBLE_DEF = "\n".join([
+    _scribble("SCRIBBLE_ALL", ["rcx", "rax"] + _GPRS[1:], list(range(16))),      # before the result is computed
+    _scribble("SCRIBBLE_KEEP_RAX", _GPRS, list(range(16))),                        # integer result already in hand
+    _scribble("SCRIBBLE_KEEP_XMM0", ["rcx", "rax"] + _GPRS[1:], list(range(1, 16))),  # float result already in hand
+])
+
+
+def native_indirect(ctx, nfun):
+    """ppci callers that call gcc-compiled System V callees THROUGH FUNCTION POINTERS (and, as controls, directly) while
+    integer and floating-point temporaries are live across the call; the callees overwrite every caller-saved register.
+    Linked by gcc, executed natively.  Returns False when gcc is not available."""
+    gcc = shutil.which("gcc")
+    if not gcc:
+        return False
+    from ppci.api import cc
+    from ppci.format.elf import write_elf
+    rng = ctx.rng
+    CAL = {"double": ("dhalf", "({}) / 2"), "float": ("fhalf", "({}) / 2"), "long": ("lneg", "-({})"), "int": ("ineg", "-({})")}
+    funcs = []     # (name, form, ppci_src, gcc_decl, call_expr, expect_expr, rtype)
+    fixed = [("double", 1), ("float", 1), ("long", 3), ("int", 3), ("double", 3), ("long", 5)]
+    for k in range(nfun):
+        T, m = fixed[k] if k < len(fixed) else (rng.choice(list(CAL)), rng.randint(1, 5))
+        isf = T in ("double", "float")
+        callee, fexpr = CAL[T]
+        op = "+" if isf else "-"
+        names = [f"x{j}" for j in range(m)]
+        last = "y"
+        params = ", ".join(f"{T} {n}" for n in names + [last])
+        if isf:
+            vals = [repr(rng.randint(-400, 400) / 4.0) for _ in range(m + 1)]
+        else:
+            vals = [str(rng.randint(-30000, 30000)) for _ in range(m + 1)]
+        cvals = [f"(({T}){v})" for v in vals]
+
+        def nest(inner, ns):
+            e = inner
+            for n in reversed(ns):
+                e = f"{n} {op} ({e})"
+            return e
+        inner_call = "{f}(y)" if isf else "y - {f}(y)"
+        body_ind = nest(inner_call.format(f="fp"), names)
+        body_dir = nest(inner_call.format(f=callee), names)
+        want_inner = (fexpr.format(cvals[-1]) if isf else f"{cvals[-1]} - ({fexpr.format(cvals[-1])})")
+        want = f"({T})(" + nest(want_inner, cvals[:-1]) + ")"
+        fi, fd = f"ind_{k}", f"dir_{k}"
+        funcs.append((fi, "indirect", f"{T} {fi}({T} (*fp)({T}), {params}) {{ return {body_ind}; }}\n",
+                      f"{T} {fi}({T} (*fp)({T}), {params});", f"{fi}({callee}, {', '.join(cvals)})", want, T))
+        funcs.append((fd, "direct", f"{T} {fd}({params}) {{ return {body_dir}; }}\n",
+                      f"{T} {fd}({params});", f"{fd}({', '.join(cvals)})", want, T))
+    header = "extern double dhalf(double v);\nextern float fhalf(float v);\nextern long lneg(long v);\nextern int ineg(int v);\n"
+    tmp = tempfile.mkdtemp(prefix="verif-c40i-", dir="/tmp")
+    try:
+        try:
+            o = cc(io.StringIO(header + "".join(f[2] for f in funcs)), "x86_64")
+        except Exception as e:  # noqa
+            ctx.fail(f"interop:indirect-call:ppci-compile-fails:{type(e).__name__}",
+                     f"ppci cannot compile callers through function pointers: {type(e).__name__}: {str(e)[:160]}", {"src": funcs[0][2]})
+            return True
+        with open(os.path.join(tmp, "p.o"), "wb") as f:
+            write_elf(o, f, type="relocatable")
+        drv = ["#include <stdio.h>", "#include <string.h>", SCRIBBLE_DEF,
+               "double dhalf(double v) { double r = v / 2; SCRIBBLE_KEEP_XMM0(); return r; }",
+               "float fhalf(float v) { float r = v / 2; SCRIBBLE_KEEP_XMM0(); return r; }",
+               "long lneg(long v) { long r = -v; SCRIBBLE_KEEP_RAX(); return r; }",
+               "int ineg(int v) { int r = -v; SCRIBBLE_KEEP_RAX(); return r; }"]
+        drv += [f[3] for f in funcs]
+        drv.append("int main(void) {")
+        for n, f in enumerate(funcs):
+            fmt, cast = ("%a", "(double)") if f[6] in ("double", "float") else ("%ld", "(long)")
+            drv.append(f"  {{ {f[6]} got = {f[4]}; {f[6]} want = {f[5]}; if (memcmp(&got, &want, sizeof want)) "
+                       f"printf(\"MISMATCH {n} {fmt} {fmt}\\n\", {cast}got, {cast}want); else printf(\"OK {n}\\n\"); fflush(stdout); }}")
+        drv.append("  return 0;\n}")
+        open(os.path.join(tmp, "drv.c"), "w").write("\n".join(drv) + "\n")
+        r = subprocess.run([gcc, "-O1", "-fno-inline", "-no-pie", "-w", "-o", "drv", "drv.c", "p.o"], cwd=tmp, capture_output=True, text=True)
+        if r.returncode != 0:
+            raise common.BrokenCheck("gcc could not build the indirect-call driver:\n" + r.stderr[-1500:])
+        try:
+            pr = subprocess.run(["./drv"], cwd=tmp, capture_output=True, text=True, timeout=60)
+            rc, out = pr.returncode, pr.stdout
+        except subprocess.TimeoutExpired:
+            rc, out = -999, ""
+        seen = {}
+        for line in out.splitlines():
+            seen[int(line.split()[1])] = line
+        for n, f in enumerate(funcs):
+            ctx.count("eval_native_" + f[1] + "_call")
+            ctx.count("programs_interop")
+            ctx.nontrivial("native " + f[2])
+            line = seen.get(n)
+            case = {"function": f[2], "call": f[4], "expected": f[5]}
+            if line is None:
+                ctx.fail(f"interop:{f[1]}-call:crash-or-no-result", f"{f[0]}: the driver stopped (rc={rc}) before printing a result", case)
+                break
+            if line.startswith("MISMATCH"):
+                ctx.fail(f"interop:{f[1]}-call:value-live-across-call-lost",
+                         f"{f[0]}: a ppci caller keeps temporaries across a{'n indirect' if f[1] == 'indirect' else ' direct'} call to a System V callee that "
+                         f"overwrites all caller-saved registers: got/expected {line.split()[2:]}  [{f[2].strip()}]", case, output=line)
+        ctx.sample({"native_indirect_caller": funcs[0][2].strip(), "call": funcs[0][4]})
+        return True
+    finally:
+        shutil.rmtree(tmp, ignore_errors=True)
 
 
 def c_value(rng, c):
@@ -875,8 +1095,8 @@ def interop(ctx):
         # the gcc side
         drv = ["#include <stdio.h>", "#include <string.h>", "#include <stdlib.h>",
                "extern unsigned long shim_call(void (*f)(void));",
-               "static void clobber_all(void) { __asm__ volatile(\"\" ::: \"rax\",\"rcx\",\"rdx\",\"rsi\",\"rdi\",\"r8\",\"r9\",\"r10\",\"r11\","
-               + ",".join(f"\"xmm{i}\"" for i in range(16)) + ",\"memory\"); }",
+               SCRIBBLE_DEF,
+               "static void clobber_all(void) { SCRIBBLE_ALL(); }",
                "static volatile long misaligned;",
                "/* in a gcc function entered with rsp = 8 (mod 16) the frame address (rbp after push rbp) is a multiple of 16 */",
                "#define CHECK_ALIGN() do { if ((unsigned long)__builtin_frame_address(0) & 15) misaligned++; } while (0)",
